@@ -138,7 +138,7 @@ def tlc(module, cfg=None, env=None, workers="auto", simulate=None, depth=None, s
     t0 = time.time()
     meta = os.path.join(metaroot or WORK, "tlcmeta-%d-%d" % (os.getpid(), random.randrange(1 << 30)))
     os.makedirs(meta, exist_ok=True)
-    jopts = ["-XX:+UseParallelGC", "-Xmx" + xmx]
+    jopts = ["-XX:+UseParallelGC", "-Xmx" + xmx, "-Xss128m"]
     if dfs:
         jopts.append("-Dtlc2.tool.queue.IStateQueue=StateDeque")
     cmd = ["java"] + jopts + ["-cp", JAVA_CP, "tlc2.TLC", "-metadir", meta, "-nowarning"]
